@@ -406,6 +406,7 @@ func c11Rollup(c *core.Ctx) {
 	}
 	sx := core.NewSymx()
 	var up, ins *ssa.Call
+	var allIns []*ssa.Call
 	core.Instrs(fn, func(i ssa.Instruction) {
 		if call, ok := i.(*ssa.Call); ok {
 			switch core.CallName(call) {
@@ -413,6 +414,7 @@ func c11Rollup(c *core.Ctx) {
 				up = call
 			case "github.com/russross/meddler.Insert":
 				ins = call
+				allIns = append(allIns, call)
 			}
 		}
 	})
@@ -449,7 +451,12 @@ func c11Rollup(c *core.Ctx) {
 	okRow := false
 	core.Instrs(fn, func(i ssa.Instruction) {
 		if st, ok := i.(*ssa.Store); ok && strings.HasSuffix(sx.Of(st.Addr).String(), ".RollupExitRoot") && st.Val == newRoot {
-			okRow = core.Dominates(st, ins)
+			// every row written (there is one insert; a second one for "unchanged" events would record a zero root that the
+			// index search then resolves to an early leaf)
+			okRow = true
+			for _, in := range allIns {
+				okRow = okRow && core.Dominates(st, in)
+			}
 		}
 	})
 	tbl, _ := core.ConstString(ins.Call.Args[1])
@@ -703,7 +710,7 @@ func init() {
 			{ID: "C11-feed", Floor: 40, Run: c11Feed, Text: "ABI topics, handler field maps, emits-or-fails, leaf literal, computed-before-stored, AddLeaf args"},
 			{ID: "C11-index", Floor: 3, Run: c11Index, Text: "initial index and per-block counter discipline"},
 			{ID: "C11-v2", Floor: 2, Run: c11V2, Text: "[DOM] announced-root / leaf-count mismatch latches the halt"},
-			{ID: "C11-rollup", Floor: 4, Run: c11Rollup, Text: "[PROV]+[DOM] rollup exit tree update arguments, guards and recorded root"},
+			{ID: "C11-rollup", Floor: 4, Run: c11Rollup, Text: "[PROV]+[DOM] rollup exit tree update arguments, guards and recorded root (on every verify_batches insert)"},
 			{ID: "C11-lookup", Floor: 3, Run: c11Lookup, Text: "[SCHEMA]+SQL lookups by index and GER"},
 			{ID: "C11-order", Floor: 9, Run: c11Order, Text: "SQL: first/last accessors order by chain position, restricted by exactly their arguments"},
 			{ID: "C11-tree", Floor: 9, Run: func(c *core.Ctx) { storeRule(c, "C11-tree") }, Text: "(shared with C08-store) every node of an updated path is stored; lookups by key"},
